@@ -626,6 +626,12 @@ template<typename T>
 T fast_atoi(const char *str, const char term='\0')
 {
 	T retval(0);
+	if (T(-1) < T(0) && *str == '-')	// signed types only
+	{
+		for (++str; *str != term; ++str)
+			retval = retval * 10 - (*str - '0');
+		return retval;
+	}
 	for (; *str != term; ++str)
 		retval = (retval << 3) + (retval << 1) + *str - '0';
 	return retval;
